@@ -790,6 +790,18 @@ func (e *Env) call(x *ECall) Term {
 	case "fresh":
 		a := e.tr(x.Args[0])
 		return Term{S: and(sx(">", a.S, "0"), not(sx("is_old", a.S))), Sort: "Bool"}
+	case "freevar":
+		// freevar(i): the current value of the i-th captured variable of the function under contract
+		// (for captured variables without a usable name, e.g. the enclosing function's unnamed result)
+		lit, ok := x.Args[0].(*EInt)
+		if !ok {
+			e.fail("freevar() needs an integer literal")
+		}
+		t, ok := e.lookup("&#" + lit.Val.String())
+		if !ok {
+			e.fail("freevar(%s): the function has no such captured variable", lit.Val.String())
+		}
+		return vc.load(e.st, t)
 	case "isold":
 		a := e.tr(x.Args[0])
 		return Term{S: sx("is_old", a.S), Sort: "Bool"}
@@ -964,6 +976,18 @@ func (e *Env) call(x *ECall) Term {
 			n.vars[p.Name] = a
 		}
 		return n.tr(sf.Body)
+	}
+	// a function of the repository whose contract says pure_const: a function of its arguments
+	if sp, ok := vc.P.spec.Funcs[x.Fun]; ok && sp.PureConst && !sp.IsIface {
+		var as []Term
+		for _, a := range x.Args {
+			as = append(as, e.value(e.tr(a)))
+		}
+		rt := vc.P.pureConstResult(sp)
+		if rt == nil {
+			e.fail("cannot determine the result type of %s", sp.Name)
+		}
+		return vc.pureConstApp(sp, as, rt)
 	}
 	// prelude SMT function
 	if sig, ok := vc.P.prelude.funs[x.Fun]; ok {
